@@ -157,3 +157,101 @@ class CompoundPostSetattr(Contract):
 
     def covers(self, cx, ov, info):
         return [("handled", lambda k, p, s: k == "return"), ("surfaces", lambda k, p, s: k == "raise")]
+
+
+# ------------------------------------------------------------------------------------------------------------------
+# C03: which alternative of a compound answers (Python level)
+# ------------------------------------------------------------------------------------------------------------------
+class _CompoundValidate(Contract):
+    path = HPATH
+    properties = ("C03", "C01")
+    class_paths = (HPATH, "traits/trait_handler.py", "traits/base_trait_handler.py")
+    overloads = ("two-alternatives",)
+    field = None
+    assumptions = ("A-PY", "bounded shape: two alternatives in the list walked (a concrete list of two symbolic validators)",
+                   "an alternative's validate returns a value, raises TraitError (declines) or raises something else",
+                   "BaseTraitHandler.error always raises TraitError (summary)")
+
+    def configure(self, cx, I, ov):
+        from contracts.py.validators_py import ErrorSummary
+        self.out = {}
+        self.res = {}
+        for grp in ("fast", "slow"):
+            for i in range(2):
+                self.out[(grp, i)] = z3.Int("%s_alternative_%d_outcome" % (grp, i))       # 0 accepts, 1 TraitError, 2 other
+                self.res[(grp, i)] = z3.Const("%s_alternative_%d_result" % (grp, i), Val)
+        cx.contracts = dict(cx.contracts)
+        cx.contracts[("BaseTraitHandler", "error")] = ErrorSummary()
+
+        def call_hook(I2, fv, args, kwargs, st, k):
+            if isinstance(fv, VConst) and fv.name.startswith("alt-"):
+                _a, grp, i = fv.name.split("-")
+                key = (grp, int(i))
+                st2 = st.gset("calls", tuple(st.ghost.get("calls", ())) + ((key, tuple(args)),))
+                e = cx.fresh("alt_exc", Exc)
+                return I2.cx.branch(st2, self.out[key] == 0, lambda s: k(VElem(self.res[key]), s), lambda s: I2.cx.branch(
+                    s, self.out[key] == 1, lambda s2: raise_(s2, "TraitError", origin=("alt",) + key),
+                    lambda s2: [("raise", VExc(sym=e, origin=("alt-other",) + key), s2.assume(*cx.exc_axioms(e), z3.Not(cx.exc_isa_sym(e, "TraitError"))))]))
+            return None
+        cx.call_hook = call_hook
+
+    def setup(self, cx, I, ov):
+        st = St().assume(*[z3.And(0 <= o, o <= 2) for o in self.out.values()])
+        self_ref = VRef(cx.new_oid())
+        fields = {"validates": VTuple([cx.const("alt-fast-0"), cx.const("alt-fast-1")]), "slow_validates": VTuple([cx.const("alt-slow-0"), cx.const("alt-slow-1")])}
+        st = st.put(self_ref.oid, HObj("obj", None, "TraitCompound", fields))
+        obj, value = z3.Consts("object value", Val)
+        name = z3.String("name")
+        return st, [self_ref, VElem(obj), VStr(name), VElem(value)], {}, dict(obj=obj, name=name, value=value, witness={str(k_): v for k_, v in self.out.items()})
+
+    def order(self):
+        raise NotImplementedError
+
+    def post(self, cx, I, ov, info, kind, payload, st):
+        calls = st.ghost.get("calls", ())
+        order = self.order()
+        # expected number of alternatives asked: up to and including the first that does not decline
+        n_exp = z3.IntVal(len(order))
+        for j in reversed(range(len(order))):
+            n_exp = z3.If(self.out[order[j]] != 1, j + 1, n_exp)
+        asked = [c[0] for c in calls]
+        out = [("post:alternatives-asked-in-declaration-order-(fast-before-slow)-until-one-does-not-decline",
+                z3.And(z3.BoolVal(asked == order[:len(asked)]), n_exp == len(asked))),
+               ("post:every-alternative-is-given-the-object-the-name-and-the-value", z3.And(*[
+                   z3.And(as_val(cx, a[0], st) == info["obj"], a[1].t == info["name"], as_val(cx, a[2], st) == info["value"]) if len(a) == 3 and isinstance(a[1], VStr) else z3.BoolVal(False)
+                   for (_k, a) in calls]) if calls else z3.BoolVal(True))]
+        all_decline = z3.And(*[self.out[k_] == 1 for k_ in order])
+        if kind == "return":
+            first = z3.BoolVal(False)
+            for j in reversed(range(len(order))):
+                first = z3.If(self.out[order[j]] == 0, as_val(cx, payload, st) == self.res[order[j]], z3.If(self.out[order[j]] == 1, first, z3.BoolVal(False)))
+            out.append(("post:accepted-with-the-result-of-the-FIRST-accepting-alternative", first))
+        elif payload.cname == "TraitError" and payload.origin and payload.origin[0] == "self.error":
+            out.append(("post:rejected-with-the-compound's-own-TraitError-exactly-when-every-alternative-declined", all_decline))
+        else:
+            out.append(("post:only-an-alternative's-own-non-TraitError-exception-passes-through", z3.BoolVal(bool(payload.origin and payload.origin[0] == "alt-other"))))
+        return out
+
+    def covers(self, cx, ov, info):
+        return [("accepts", lambda k, p, s: k == "return"), ("rejects", lambda k, p, s: k == "raise" and p.cname == "TraitError")]
+
+
+@register
+class CompoundValidate(_CompoundValidate):
+    """TraitCompound.validate: the fast alternatives in order, then the slow ones in order; the first that does not raise
+    TraitError answers; the compound's own TraitError iff all declined."""
+    qualname = "TraitCompound.validate"
+    inline = ("TraitCompound.slow_validate",)
+
+    def order(self):
+        return [("fast", 0), ("fast", 1), ("slow", 0), ("slow", 1)]
+
+
+@register
+class CompoundSlowValidate(_CompoundValidate):
+    """TraitCompound.slow_validate (what the compiled validate_trait_complex calls for its slow entry): the slow alternatives
+    in order only."""
+    qualname = "TraitCompound.slow_validate"
+
+    def order(self):
+        return [("slow", 0), ("slow", 1)]
